@@ -276,6 +276,19 @@ def gen_tree(ctx, idx):
     return variants
 
 
+def gen_lib_updates(ctx, idx):
+    """a target library that lacks a group, and two source libraries that each give a piece of it"""
+    rng = ctx.rng
+    g, other = GROUPS[0], GROUPS[1]
+    tr, tro = truth(rng), truth(rng)
+    root = os.path.join(vlib.WORK, 'c13_upd_%d' % idx)
+    files = {'target.yaml': ([(other, piece(rng, tro))], []), 'src1.yaml': ([(g, piece(rng, tr))], []), 'src2.yaml': ([(g, piece(rng, tr))], []),
+             'src3.yaml': ([(g, piece(rng, tr)), (other, piece(rng, tro))], [])}
+    write_tree(root, files, 'target.yaml')
+    names = ['target.yaml'] + rng.sample(['src1.yaml', 'src2.yaml', 'src3.yaml'], rng.choice([2, 3]))
+    return {'op': 'lib_updates', 'paths': [os.path.join(root, n) for n in names], 'overwrite': rng.random() < 0.3}
+
+
 def file_lit(files, name):
     groups, incs = files[name]
     gl = g_list(['(%s, %s)' % (g_str(canon(g)), inc_lit(rec_state(p))) for g, p in groups])
@@ -299,8 +312,16 @@ def run(ctx):
         vs = gen_tree(ctx, i)
         groups_of.append((len(trees), len(vs)))
         trees += vs
-    res = c05.run_jobs(seqs + trees)
-    rs, rt = res[:len(seqs)], res[len(seqs):]
+    upds = [gen_lib_updates(ctx, i) for i in range(ctx.n(12, 120))]
+    res = c05.run_jobs(seqs + trees + upds)
+    rs, rt, ru = res[:len(seqs)], res[len(seqs):len(seqs) + len(trees)], res[len(seqs) + len(trees):]
+    for job, r in zip(upds, ru):
+        ctx.count(('libupd', job['paths'][0]))
+        if 'changed' not in r:
+            ctx.broken.append('implementation child failed: %s' % str(r)[:300])
+        elif r['changed']:
+            ctx.violate('update-changes-source', 'GroupLibrary.Update changed a library it was only reading from', job, 'sources unchanged',
+                        {'changed_sources': r['changed'], 'excs': r['excs']})
     hist = {'sequences': len(seqs), 'trees': len(groups_of), 'tree_variants': len(trees), 'steps': 0, 'rejected': 0, 'tree_kinds': {}}
     for i, (job, r) in enumerate(zip(seqs, rs)):
         if 'steps' not in r:
